@@ -16,6 +16,8 @@ import (
 	"math/big"
 	"os"
 	"path/filepath"
+	"sort"
+	"strings"
 	"sync"
 	"time"
 
@@ -48,6 +50,31 @@ type c15Source struct {
 	listed *Leaf  // revoked from the start
 	victim *Leaf  // revoked by the next published version
 	other  *Leaf  // never revoked
+}
+
+// c15Close cleans a validator up while no refresh of the process is in flight (the harness holds the refresh
+// mutex for the duration of Cleanup). Without this a refresh of the closing instance that is in flight or queued
+// meets closed LevelDB stores and retries every step 5 x 1 s *while holding the process-wide refresh mutex*,
+// which stalls the refreshes of every other validator for seconds (measured separately by c15CleanupInterference).
+func c15Close(v *Validator) {
+	release := crl.VerifHoldUpdateMutex()
+	v.Close()
+	release()
+}
+
+// c15Quiesce waits until the refresh mutex is free twice in a row (no queue of refresh calls behind it).
+func c15Quiesce() {
+	quiet := 0
+	for t0 := time.Now(); quiet < 2 && time.Since(t0) < 90*time.Second; {
+		s := time.Now()
+		crl.VerifHoldUpdateMutex()()
+		if time.Since(s) < 30*time.Millisecond {
+			quiet++
+		} else {
+			quiet = 0
+		}
+		time.Sleep(20 * time.Millisecond)
+	}
 }
 
 func c15WriteFileAtomic(path string, b []byte) {
@@ -129,25 +156,84 @@ func c15Provision(r *Run, name string, intervalMs int, storage, sig, fetch strin
 func runC15(r *Run) {
 	r.rule = "a case is non-trivial when a refresh of the real code decided or delivered something observable: a run/skip decision probe, " +
 		"a publish-to-reject delay measured against a running ticker, a fail^k history with k >= 1, a window with >= 3 expected ticks, a Provision with configured CRLs"
-	var wg sync.WaitGroup
+	// All validators of a process share one refresh mutex and every ticker keeps queueing calls behind it: the
+	// parts run one after the other and with bounded width, so that the waits granted to the measured instances
+	// (c15W) are honest. (What a slow origin of one instance does to the others is measured separately, see
+	// c15Failures kind=drop.)
 	part := func(f func()) {
-		wg.Add(1)
-		go func() {
-			defer wg.Done()
-			defer func() {
-				if p := recover(); p != nil {
-					r.Violate("C15 harness-panic", fmt.Sprint(p), nil)
-				}
-			}()
-			f()
+		defer func() {
+			if p := recover(); p != nil {
+				r.Violate("C15 harness-panic", fmt.Sprint(p), nil)
+			}
 		}()
+		f()
 	}
-	part(func() { c15DecisionProbes(r) })
-	part(func() { c15Instances(r) })
-	part(func() { c15Matrix(r) })
-	part(func() { c15Failures(r) })
-	part(func() { c15ProvisionCases(r) })
-	wg.Wait()
+	only := os.Getenv("VERIF_C15_PARTS") // debugging aid: comma separated part indices
+	for i, f := range []func(*Run){c15DecisionProbes, c15Instances, c15Matrix, c15Failures, c15ProvisionCases, c15CleanupInterference} {
+		if only != "" && !strings.Contains(","+only+",", fmt.Sprintf(",%d,", i)) {
+			continue
+		}
+		f := f
+		part(func() { f(r) })
+		c15Quiesce()
+	}
+}
+
+// c15CleanupInterference measures what the Cleanup of one (disk) instance whose refresh is in flight does to the
+// refresh of another instance: the closing instance's refresh retries on closed stores while it holds the
+// process-wide mutex. Reported as a sample and checked against a generous bound (W = 12 s per entry of the
+// closing instance: two steps x 5 retries x 1 s, plus slack).
+func c15CleanupInterference(r *Run) {
+	o := NewConcOrigin()
+	defer o.Close()
+	ca := NewCA(CAOpts{CN: "C15 interference CA", EC: true})
+	signers := writeFile(scratchDir("c15-signers"), "ca.pem", certPEM(ca.Cert))
+	sb := c15NewSource("crl_urls", "int-b", o, ca, "")
+	b, err := c15Provision(r, "int-b", 300, "memory", "", "", []*c15Source{sb}, o, ca, signers)
+	if err != nil {
+		r.Violate("C15 provision-failed", "interference: "+err.Error(), nil)
+		return
+	}
+	defer c15Close(b.v)
+	worst := 0
+	rounds := 3
+	if r.Thorough() {
+		rounds = 10
+	}
+	for i := 0; i < rounds; i++ {
+		sa := c15NewSource("crl_urls", fmt.Sprintf("int-a%d", i), o, ca, "")
+		a, err := c15Provision(r, fmt.Sprintf("int-a%d", i), 300, "disk", "", "", []*c15Source{sa}, o, ca, signers)
+		if err != nil {
+			r.Violate("C15 provision-failed", "interference: "+err.Error(), nil)
+			return
+		}
+		// A's refresh and A's Cleanup at the same moment
+		var wg sync.WaitGroup
+		wg.Add(2)
+		go func() { defer wg.Done(); a.chk.VerifUpdateCRLsRecovering(true) }()
+		go func() { defer wg.Done(); time.Sleep(time.Duration(r.Rng.Intn(3000)) * time.Microsecond); a.v.Close() }()
+		// meanwhile B must pick up a new CRL
+		sb.publish(o, ca, i%2 == 0, int64(10+i))
+		want := map[bool]string{true: "reject", false: "accept"}[i%2 == 0]
+		d, ok := c15WaitVerdict(b.v, sb.victim, ca, want, 40*time.Second)
+		wg.Wait()
+		ms := int(d / time.Millisecond)
+		r.Note(fmt.Sprintf("cleanup-interference round %d: other instance's publish-to-verdict delay %d ms", i, ms))
+		if ms > worst {
+			worst = ms
+		}
+		if !ok {
+			r.Violate("C15 refresh-blocked-by-cleaned-up-instance", fmt.Sprintf("instance B (interval 300 ms) did not pick up a new CRL within 40 s while instance A (disk, 1 location) was cleaned up during its refresh"), nil)
+		}
+		r.Eval(fmt.Sprintf("cleanup-interference/%d", i), true)
+	}
+	bound := c15Bound(300) + 12000
+	r.Op(fmt.Sprintf("sched admits delay 300 %d %d %d", c15D, c15W+12000, worst), "yes")
+	r.Sample(map[string]interface{}{"scenario": "cleanup of a disk instance during its refresh", "other_instance_interval_ms": 300, "worst_publish_to_reject_ms": worst, "rounds": rounds})
+	r.Count(fmt.Sprintf("cleanup-interference-over-1s:%v", worst > 1000))
+	if worst > bound {
+		r.Violate("C15 refresh-blocked-by-cleaned-up-instance", fmt.Sprintf("instance B (interval 300 ms) saw a new CRL only after %d ms while instance A (disk, 1 location) was cleaned up during its refresh (granted %d ms)", worst, bound), nil)
+	}
 }
 
 // ---- (1) decision probes ---------------------------------------------------------------------------
@@ -171,7 +257,7 @@ func c15DecisionProbes(r *Run) {
 	if a == nil {
 		return
 	}
-	defer a.v.Close()
+	defer c15Close(a.v)
 	// the ticker goroutine's initial run: stamp is zero -> runs (Provision itself fetched twice: AddCRL + UpdateCRL)
 	time.Sleep(250 * time.Millisecond)
 	obs := "skip"
@@ -221,7 +307,7 @@ func c15DecisionProbes(r *Run) {
 	if b == nil {
 		return
 	}
-	defer b.v.Close()
+	defer c15Close(b.v)
 	for try := 0; try < 4; try++ {
 		lastB := lastFetch(b, sb)
 		wait := time.Duration(I/2+250)*time.Millisecond - time.Since(lastB)
@@ -291,7 +377,7 @@ func c15Group(r *Run, n int) {
 			r.Violate("C15 provision-failed", name+": "+err.Error(), nil)
 			return
 		}
-		defer in.v.Close()
+		defer c15Close(in.v)
 		insts = append(insts, in)
 		srcs = append(srcs, ss)
 	}
@@ -401,7 +487,7 @@ func c15Matrix(r *Run) {
 		}
 		cells = q
 	}
-	parallel(len(cells), 12, func(i int) {
+	parallel(len(cells), 6, func(i int) {
 		c := cells[i]
 		o := NewConcOrigin()
 		defer o.Close()
@@ -422,7 +508,7 @@ func c15Matrix(r *Run) {
 			r.Violate("C15 provision-failed "+key, err.Error(), c)
 			return
 		}
-		defer in.v.Close()
+		defer c15Close(in.v)
 		in.ca = signerCA
 		// issuer certificate for the chains is the real CA in every case
 		if c.kind == "cdp" {
@@ -486,7 +572,15 @@ func c15Failures(r *Run) {
 			cases = append(cases, fc{kind, k})
 		}
 	}
-	parallel(len(cases), 12, func(i int) {
+	// dropped connections make a run last k x 500 ms while it holds the process-wide mutex: one at a time, last
+	sort.SliceStable(cases, func(a, b int) bool { return cases[a].kind != "drop" && cases[b].kind == "drop" })
+	nd := 0
+	for _, c := range cases {
+		if c.kind != "drop" {
+			nd++
+		}
+	}
+	runCase := func(i int) {
 		c := cases[i]
 		const I = 300
 		o := NewConcOrigin()
@@ -504,7 +598,7 @@ func c15Failures(r *Run) {
 			r.Violate("C15 provision-failed", "failure history: "+err.Error(), nil)
 			return
 		}
-		defer in.v.Close()
+		defer c15Close(in.v)
 		good := ca.MakeCRL(CRLOpts{Serials: []*big.Int{s.listed.Cert.SerialNumber, s.victim.Cert.SerialNumber}, Number: 2})
 		var bad Behaviour
 		switch c.kind {
@@ -534,8 +628,25 @@ func c15Failures(r *Run) {
 			extra = c.k*500 + 2*I
 		}
 		bound := c15Bound(I) + extra
-		d, ok := c15WaitVerdict(in.v, s.victim, ca, "reject", time.Duration(bound+4000)*time.Millisecond)
 		key := fmt.Sprintf("kind=%s k=%d", c.kind, c.k)
+		hits0 := o.Hits(s.path)
+		sawOld, ok := false, false
+		var d time.Duration
+		for time.Since(t0) < time.Duration(bound+4000)*time.Millisecond {
+			served := o.Hits(s.path) - hits0
+			vd, _ := in.v.Verify(c15Chains(s.victim, ca))
+			if vd == "reject" {
+				ok, d = true, time.Since(t0)
+				if served <= c.k {
+					r.Violate("C15 failing-answer-came-into-force kind="+c.kind, fmt.Sprintf("%s: the certificate is rejected although only %d answers (all bad) had been served", key, served), nil)
+				}
+				break
+			}
+			if served >= 1 {
+				sawOld = true // at least one bad answer was consumed and the previous list is still what decides
+			}
+			time.Sleep(4 * time.Millisecond)
+		}
 		if !ok || int(d/time.Millisecond) > bound {
 			r.Violate("C15 not-refreshed-after-failures kind="+c.kind, fmt.Sprintf("%s: after %d failing answers the good CRL came into force after %d ms (reached %v; bound %d ms)", key, c.k, d.Milliseconds(), ok, bound), nil)
 		}
@@ -544,24 +655,45 @@ func c15Failures(r *Run) {
 			r.Violate("C15 previous-list-lost kind="+c.kind, key+": the certificate listed before the failures is accepted", nil)
 		}
 		// model: old while failing, new after the first success
-		r.Op(fmt.Sprintf("sched inforce %d", c.k), "old,new")
-		// every run attempted all three locations although the first one failed: compare fetches of b and c with a's runs
-		end := time.Now()
-		nb, nc := o.Log.countBetween(s2.path, t0, end), o.Log.countBetween(s3.path, t0, end)
-		attempted := 1
-		if nb > 0 {
-			attempted++
+		if sawOld || c.kind != "drop" {
+			// (a dropped connection is first retried by net/http itself, within milliseconds: no old phase to see)
+			obsF := map[bool]string{true: "old", false: "unseen"}[sawOld] + "," + map[bool]string{true: "new", false: "old"}[ok]
+			r.Op(fmt.Sprintf("sched inforce %d", c.k), obsF)
 		}
-		if nc > 0 {
-			attempted++
-		}
-		r.Op("sched attempts 3 1", fmt.Sprint(attempted))
-		if attempted != 3 {
-			r.Violate("C15 failing-location-stops-refresh", fmt.Sprintf("%s: while the first location failed the other locations were fetched %d / %d times", key, nb, nc), nil)
+		// every run attempts all three locations although the first one fails: each of the k+1 runs that fetched
+		// location a also fetched b and c (identifier order is map order, so a run that stopped at the failing
+		// location would skip each of them half of the time)
+		if c.kind != "drop" && ok {
+			time.Sleep(150 * time.Millisecond) // let the run that delivered the good list finish its other locations
+			var as []time.Time
+			for _, t := range o.Log.times(s.path) {
+				if !t.Before(t0) {
+					as = append(as, t)
+				}
+			}
+			if len(as) > c.k {
+				lo, hi := as[0].Add(-I/2*time.Millisecond), as[c.k].Add(I/2*time.Millisecond)
+				nb, nc := o.Log.countBetween(s2.path, lo, hi), o.Log.countBetween(s3.path, lo, hi)
+				attempted := 1
+				if nb >= c.k {
+					attempted++
+				}
+				if nc >= c.k {
+					attempted++
+				}
+				r.Op("sched attempts 3 1", fmt.Sprint(attempted))
+				if attempted != 3 {
+					r.Violate("C15 failing-location-stops-refresh", fmt.Sprintf("%s: during the %d runs that fetched the failing location the other two were fetched %d / %d times", key, c.k+1, nb, nc), nil)
+				}
+			}
 		}
 		r.Eval("failures/"+key, true)
 		r.Count("failure-history:" + c.kind)
-	})
+	}
+	parallel(nd, 6, runCase)
+	for i := nd; i < len(cases); i++ {
+		runCase(i)
+	}
 }
 
 // ---- (4) Provision ---------------------------------------------------------------------------------
@@ -611,7 +743,7 @@ func c15ProvisionCases(r *Run) {
 			r.Eval("provision/"+op, true)
 			return
 		}
-		defer in.v.Close()
+		defer c15Close(in.v)
 		// immediately after Provision returned: a listed serial without CDP is rejected for every configured CRL
 		inforce := 0
 		for _, s := range srcs {
